@@ -251,7 +251,7 @@ def geometry_module(pid, geo, peers):
     cfg = os.path.join(d, name + '.cfg')
     with open(cfg, 'w') as f:
         f.write('SPECIFICATION TSpec\nCONSTANTS\n  Peers = {%s}\n  NPieces = %d\n  NBlocks <- NB\n  EndGame = 10\n  MaxUnchoked = 10\n'
-                '  OptRounds = 3\n  KALimit = 2\n  Pipeline = {1, 2, 3}\n  Rates = {0}\n  FrameKinds = {}\n  BFMenu = {}\n  Own0 = {}\n  HS0 = FALSE\n'
+                '  OptRounds = 3\n  KALimit = 2\n  Pipeline = {1, 2, 3}\n  Rates = {0}\n  FrameKinds = {}\n  BFMenu = {}\n  Own0 = {}\n  Bugs = {}\n  HS0 = FALSE\n'
                 'INVARIANTS TypeOK OwnedImpliesStored ServedImpliesStored AdvertisedImpliesStored SilentBeforeHandshake NoDataBeforeHandshake '
                 'OwnHandshakeFirst ServeOnlyUnchoked RxShape RequestsTile AnnouncedInOrder DeferredWhileChoked ReservedBacked '
                 'AskOnlyAdvertisedAndLacked NoPanic PickSound SlotBound ViewAgreement KaBound\n'
